@@ -201,6 +201,25 @@ UNITS += [
 """),
 ]
 
+UNITS += [
+    # the nested helper of Cache::write_bytes that the unit above sees as a stub: on success the file holds EXACTLY the content
+    # (the contract the stub vwrite_local_file assumes) -- which needs the truncation of a longer left-over file
+    Unit(name="cache_write_local_file", file=CA, anchor="fn write_local_file(filename: &Path, mut reader: impl Read) -> RusticResult<()>", within="pub fn write_bytes(&self, tpe: FileType, id: &Id, content: &BytesList) -> RusticResult<()>", ret_name="r",
+         functions=["backend::cache::Cache::write_bytes::write_local_file (nested helper)"],
+         rewrites=[R_LOG, R_ERR, R_MAPERR,
+                   Rw("filename: &Path, mut reader: impl Read) -> RusticResult<()>", "filename: &PathW, reader0: ReaderW, vfs: &mut VFsW) -> RusticResult<()>", sig=True, why="path / reader -> stubs; ghost parameter: the cache directory"),
+                   Rw("fs::OpenOptions::new()", "VOpenOptions::new()", why="std::fs::OpenOptions -> the flags it collects"),
+                   Rw(".open(filename)", ".open(filename, vfs)", why="ghost parameter: the cache directory"),
+                   Rw("io::copy(&mut reader, &mut file)", "vio_copy(&mut reader, &mut file, vfs)", why="std::io::copy -> stub (writes all bytes from offset 0 or fails)"),
+         ],
+         hints=[("before", "let mut file = ", "            let mut reader = reader0;")],
+         contract="""
+    ensures
+        /*@written_file_holds_exactly_the_content*/ r is Ok ==> final(vfs).files@.dom().contains(filename.key@) && final(vfs).files@[filename.key@] == reader0.data@,
+        /*@write_helper_touches_only_its_file*/ forall|k: PKey| k != filename.key@ ==> ((#[trigger] final(vfs).files@.dom().contains(k)) == old(vfs).files@.dom().contains(k)),
+"""),
+]
+
 META = {"not_covered": [
     "the statement's quantifier: histories through a cached and an uncached handle, stale/truncated/foreign files planted in the cache directory -- only the single-call building blocks are decided here",
     "Cache::list_with_size (directory walk, iterator chain) -- stub with map semantics; Cache::new (directory creation, CACHEDIR.TAG); read_full / read_partial ARE units over the std::io model (File::open/seek/read_exact assumed), write_bytes / remove ARE units over a ghost file system (rename atomic, nested write helper elided), remove_not_in_list IS a unit",
